@@ -162,6 +162,7 @@ type CertSpec struct {
 	SelfSignKey         crypto.Signer // if set: a genuinely self-signed certificate with this key
 	KeyUsage            stdx509.KeyUsage
 	Serial              int64
+	SelfKeyed           bool     // with SelfSignKey: signed by the certificate's own key, but issued under another name (Issuer), subjectKeyId = authorityKeyId
 	OCSP                []string // authorityInfoAccess: id-ad-ocsp URIs
 	CAIssuers           []string // authorityInfoAccess: id-ad-caIssuers URIs
 }
@@ -216,6 +217,11 @@ func BuildCert(s CertSpec) ([]byte, error) {
 		parent = tmpl
 		pub = s.SelfSignKey.Public()
 		signer = s.SelfSignKey
+		if s.SelfKeyed {
+			ski := []byte{0x5e, 0x1f, 0x4b, 0x0e, 0xd0, 0x01, 0x02, 0x03, 0x04, 0x05, 0x06, 0x07, 0x08, 0x09, 0x0a, 0x0b, 0x0c, 0x0d, 0x0e, 0x0f}
+			tmpl.SubjectKeyId = ski
+			parent = &stdx509.Certificate{Subject: iss, SerialNumber: big.NewInt(1), SubjectKeyId: ski}
+		}
 	}
 	der, err := stdx509.CreateCertificate(rand.Reader, tmpl, parent, pub, signer)
 	if err != nil {
